@@ -97,6 +97,7 @@ package providers
 
 //@ func (*ProviderData).buildSessionFromClaims
 //@ prop C04 C14
+//@ loop 0 invariant[claim-table-index] rangeindex >= -1
 //@ ensures[no-error-means-a-session] ret1 == nil ==> ret0 != nil
 //@ ensures[unverified-email-refused] ret1 == nil && rawIDToken != "" && p.EmailClaim == "email" && !p.AllowUnverifiedEmail ==>
 //@     called(GetClaimInto#1) && ret1(GetClaimInto#1) == nil && arg(GetClaimInto#1, 0) == "email_verified"
